@@ -594,6 +594,19 @@ impl Snap {
             next_type_id,
         }
     }
+    /// Like `recycle`, but remember the extended item types of `other`
+    /// (and their numbers) instead of the ones of this snap.
+    pub fn recycle_like(mut self, other: &Snap) -> Builder {
+        self.raw.clear();
+        self.extended_types.clone_from(&other.extended_types);
+        for (&uuid, &raw_type_id) in &self.extended_types {
+            // It fit into `other`, it's going to fit this time.
+            self.raw
+                .add_item(TYPE_ID_EX, raw_type_id, &uuid_to_item_data(uuid))
+                .unwrap();
+        }
+        self.recycle()
+    }
 }
 
 pub struct Items<'a> {
